@@ -203,7 +203,7 @@ PROPERTIES = {
     'C14': _P(['K-ITER', 'K-2Q', 'K-ARC'], 'model_checking', KANI_LEVEL_TEXT + '. C14: iterator contracts with ghost cursors over the view under an arbitrary next/next_back schedule of len()+2 steps, for all ten iterator types; per-list accessor families of 2Q/ARC hand out the right list.', KANI_NOTE, T_KANI),
     'C15': _P(['K-CB'], 'model_checking', KANI_LEVEL_TEXT + '. C15: ghost log of callback invocations; each operation contract states exactly how the log grows.', KANI_NOTE + '; with_on_evict_cb (RandomState) checked with RandomState::new stubbed', T_KANI),
     'C16': _P(['K-LIFE', 'K-SEG', 'K-WTLFU', 'K-TLFU-CTOR'], 'model_checking', KANI_LEVEL_TEXT + '. C16: clone contract (equal view, disjoint nodes, independence under mutation and drop) for RawLRU, SegmentedCache, WTinyLFUCache, TinyLFU.', KANI_NOTE, T_KANI),
-    'C17': _P(['K-LIFE', 'K-RAW', 'K-SEG', 'K-2Q', 'K-ARC', 'K-WTLFU'], 'model_checking', KANI_LEVEL_TEXT + '. C17: (i) every harness runs with a hasher whose use is a failure (the crate never hashes outside its index) and an index whose iteration order is nondeterministic; (ii) contracts are functions of the abstract view; (iii) two-run relational contract: same view, different addresses and index slot order, same results.', KANI_NOTE + '; independence from the particular BuildHasher inside std/hashbrown HashMap is an assumption on the dependency', T_KANI),
+    'C17': _P(['K-LIFE', 'K-CB', 'K-RAW', 'K-SEG', 'K-2Q', 'K-ARC', 'K-WTLFU'], 'model_checking', KANI_LEVEL_TEXT + '. C17: (i) every harness runs with a hasher whose use is a failure (the crate never hashes outside its index) and an index whose iteration order is nondeterministic; (ii) contracts are functions of the abstract view; (iii) two-run relational contract: same view, different addresses and index slot order, same results.', KANI_NOTE + '; independence from the particular BuildHasher inside std/hashbrown HashMap is an assumption on the dependency', T_KANI),
     'C20': _P(['K-SLFU'], 'model_checking', KANI_LEVEL_TEXT + '. C20: invariant used == sum of recorded costs over an arbitrary table; contracts of increment*/update*/remove*/clear/update_max_cost/room_left/fill_sample.', 'trusted: as above; table <= N keys; |cost| < 2^40 (i64 overflow excluded by precondition)', T_KANI),
 }
 
